@@ -175,7 +175,7 @@ def shrink(prog: Program, pred, budget=400) -> Program:
 def clone(prog: Program, main=None, bodies=None, drop=()) -> Program:
     """copy with fresh Sub objects; call nodes re-pointed by sid (candidates never alias `prog`)"""
     bodies = bodies or {}
-    new = {s.sid: Sub(s.sid, s.name, s.params, s.ret, None) for s in prog.subs if s.sid not in drop}
+    new = {s.sid: Sub(s.sid, s.name, s.params, s.ret, None, getattr(s, 'decl', None)) for s in prog.subs if s.sid not in drop}
 
     def fix(n):
         if isinstance(n, tuple) and n and n[0] == "call":
